@@ -132,6 +132,7 @@ package astdiff
 //@   loop 0
 //@     unfold wfV(from.Children[#k]) == wfVBody(from.Children[#k])
 //@     invariant fresh(starts.arr) && len(starts) == len(from.Children)
+//@     invariant [C05,C17] no-field-reaches-back-to-the-start-of-the-file: (f.Region.Pos != 0 && forall j int {from.Children[j]} :: 0 <= j && j < #k && from.Children[j].IsNode ==> from.Children[j].pos != 0 && from.Children[j].end != 0) ==> lastEnd != 0 && forall j int {starts[j]} :: 0 <= j && j < #k ==> starts[j] != 0
 //@   loop 1
 //@     invariant fresh(starts.arr) && len(starts) == len(from.Children) && fresh(ends.arr) && len(ends) == len(from.Children)
 //@     invariant i < len(from.Children)
